@@ -9,7 +9,7 @@ from __future__ import annotations
 from dataclasses import dataclass, field
 from typing import Callable, Dict, List, Optional, Tuple
 
-from . import wk
+from . import cc, er, lk, on, sh, wk
 
 
 @dataclass
@@ -29,6 +29,29 @@ RULE_GROUPS: Dict[str, Callable] = {
     'wk.primitives': wk.rule_primitives,
     'wk.event_set': wk.rule_event_set,
     'wk.lock_regions': wk.rule_lock_regions,
+    'sh.shared_writes': sh.rule_shared_writes,
+    'sh.immutable_description': sh.rule_immutable_description,
+    'sh.memoisation': sh.rule_memoisation,
+    'on.test_and_set': on.rule_test_and_set,
+    'on.body_guarded': on.rule_body_guarded,
+    'on.hide_only_recurrent': on.rule_hide_only_recurrent,
+    'on.event_after_publish': on.rule_event_after_publish,
+    'on.owner_only_publish': on.rule_owner_only_publish,
+    'cc.launch_loop': cc.rule_launch_loop,
+    'cc.ready_reads': cc.rule_ready_reads,
+    'cc.launch_order': cc.rule_launch_order,
+    'cc.dispatch': cc.rule_dispatch,
+    'cc.no_mutex': cc.rule_no_mutex,
+    'lk.spawn_registered': lk.rule_spawn_registered,
+    'lk.run_cleanup': lk.rule_run_cleanup,
+    'lk.cleanup_starts_nothing': lk.rule_cleanup_starts_nothing,
+    'lk.cancellation_surfaces': lk.rule_cancellation_surfaces,
+    'er.task_typestate': er.rule_task_typestate,
+    'er.chart_wraps': er.rule_chart_wraps,
+    'er.result_after_error_test': er.rule_result_after_error_test,
+    'er.raise_provenance': er.rule_raise_provenance,
+    'er.partial_lookups': er.rule_partial_lookups,
+    'er.errors_as_values': er.rule_errors_as_values,
 }
 
 RULES: Dict[str, Tuple[str, str]] = {
@@ -47,6 +70,43 @@ RULES: Dict[str, Tuple[str, str]] = {
                              'sets the node\'s execution event'),
     'WK-l': ('wk.lock_regions', 'while a condition lock is held only the wait itself is awaited, no user code runs, no other '
                                 'lock is taken'),
+    'SH-1': ('sh.shared_writes', 'no write effect (store, delete, mutating call) reachable from the run entry has a root that '
+                                 'the run did not create (dag, chart, caller dictionaries, globals)'),
+    'SH-3': ('sh.shared_writes', 'no write to module globals, class attributes or registry singletons on the run path'),
+    'SH-2': ('sh.immutable_description', 'charts are frozen dataclasses, DAG.run builds a fresh local manager per call, every '
+                                         'mutable field of the per-run classes is created per instance'),
+    'SH-5': ('sh.memoisation', 'memoisation on the run path stores into a per-run field of the manager'),
+    'ON-1': ('on.test_and_set', 'no suspension point between the negative processed-test of a node and its processed-mark'),
+    'ON-2': ('on.body_guarded', 'node code (process / get_default / executor) is invoked only after the processed-mark of the '
+                                'same node, and only inside task roots'),
+    'ON-3': ('on.hide_only_recurrent', 'results and processed marks are hidden (re-armed) only under a recurrent-context test'),
+    'ON-4': ('on.event_after_publish', 'a node\'s execution event is never set before its result is published'),
+    'RD-5': ('on.owner_only_publish', 'only the activation that marked a node as processed publishes its result'),
+    'CC-1': ('cc.launch_loop', 'in the launch loop node coroutines are only spawned; nothing but the readiness wait is awaited, '
+                               'no node / collaborator code, sleep or gather runs in the loop\'s frame'),
+    'CC-3': ('cc.ready_reads', 'the readiness predicate reads only results keyed by nodes derived from the node being launched'),
+    'CC-4': ('cc.launch_order', 'the launch order comes from a generation-ordered source through order-preserving operations'),
+    'CC-5': ('cc.dispatch', 'a synchronous body runs inline only under the non_async tag guard, otherwise in an executor; '
+                            'tasks are created eagerly'),
+    'CC-6': ('cc.no_mutex', 'node code never runs inside a lock / semaphore / with region'),
+    'LK-1': ('lk.spawn_registered', 'every task-creating primitive registers the task, on every path, in the registry that '
+                                    'run() cancels'),
+    'LK-2': ('lk.run_cleanup', 'after run() has spawned, return, exception and cancellation of run() all pass the cancel-all loop'),
+    'LK-3': ('lk.run_cleanup', 'the cancel-all loop cancels every task that is not done and never stops early'),
+    'LK-4': ('lk.cleanup_starts_nothing', 'finally bodies and cancellation handlers create no task, run no node or collaborator '
+                                          'code and do not sleep'),
+    'LK-5': ('lk.cancellation_surfaces', 'no handler on the run path catches cancellation without re-raising it'),
+    'LK-6': ('lk.cancellation_surfaces', 'no asyncio.shield; executor futures are awaited in the frame that created them'),
+    'ER-1': ('er.task_typestate', 'Task.exception()/result() only where done() and not cancelled() are established'),
+    'ER-2': ('er.chart_wraps', 'PipelineChart.run catches exactly Exception, returns PipelineResult(value=None, error=<caught>), '
+                               'and no Exception of the entrypoint escapes it'),
+    'ER-3': ('er.result_after_error_test', 'the output value is returned only after a negative error test over all registered '
+                                           'tasks with no suspension point in between'),
+    'ER-4': ('er.raise_provenance', 'every raise on the run path re-raises a caught exception, raises the exception of a failed '
+                                    'task, or constructs a documented engine error'),
+    'ER-5': ('er.partial_lookups', 'no partial look-up keyed by a node result without a dominating membership guard'),
+    'ER-6': ('er.errors_as_values', 'a caught exception is returned as a value only under the is_oneof flag; no handler of the '
+                                    'manager swallows an exception'),
 }
 
 
@@ -60,7 +120,7 @@ def _p(spec: PropertySpec) -> None:
 _p(PropertySpec(
     'C02',
     [('WK-a', None), ('WK-b', None), ('WK-c', None), ('WK-d', None), ('WK-e', None), ('WK-f', None), ('WK-h', None),
-     ('WK-k', None), ('WK-l', None)],
+     ('WK-k', None), ('WK-l', None), ('ER-5', None)],
     decides='the wake-up discipline: every state change that can make a waiter\'s predicate true is followed on every '
             'control-flow path by a notification of the condition that waiter blocks on, every fault that ends a task '
             'reaches the run waiter, second arrivals are always released, primitives are used in their lost-wake-up-free form',
@@ -69,4 +129,85 @@ _p(PropertySpec(
     technique='interprocedural event-CFG path analysis (must-pass-through with flag-sensitive facts) over role-discovered '
               'publish / notify / wait primitives',
     floors={'WK-a': 1, 'WK-b': 20, 'WK-c': 4, 'WK-d': 1, 'WK-e': 2, 'WK-f': 1, 'WK-h': 2, 'WK-k': 1, 'WK-l': 2},
+))
+
+
+def _in(*props):
+    ps = set(props)
+    return lambda inst: True
+
+
+_p(PropertySpec(
+    'C04',
+    [('ON-1', None), ('ON-2', None), ('ON-3', None), ('ON-4', None), ('RD-5', None), ('WK-k', None)],
+    decides='the at-most-once guard: the processed test-and-set is atomic on the event loop, node code is reachable only '
+            'behind it, results are re-armed only in recurrent contexts, second arrivals are released only after the result '
+            'is written, and only the owner of an execution publishes its result',
+    not_decided='double execution caused by graph shape (a node re-armed by an overlapping recurrent subgraph while it is '
+                'still running); the retry attempts themselves are C12',
+    technique='event-CFG path analysis with an await-sensitive automaton (check-then-act atomicity) and dominance of node-code '
+              'invocations by the processed mark',
+    floors={'ON-1': 1, 'ON-2': 3, 'ON-3': 2, 'ON-4': 2, 'RD-5': 1, 'WK-k': 1},
+))
+
+_p(PropertySpec(
+    'C05',
+    [('ER-1', None), ('ER-2', None), ('ER-3', None), ('ER-4', None), ('ER-5', None), ('ER-6', None)],
+    decides='what can surface as the outcome: the chart wraps exactly Exception into an error result, the manager returns the '
+            'output only after a negative error test over all tasks, task exceptions are read only in the done-and-not-cancelled '
+            'typestate, every raise has an admissible provenance, no engine-internal look-up error can arise from a node result, '
+            'failures become values only in one-of dags',
+    not_decided='which of several concurrently failing nodes is reported (left open by the property); that a value is never '
+                'returned when a required node failed beyond ER-3 / RD-6',
+    technique='typestate over syntactic guards, exception-flow reachability in the interprocedural event CFG, taint of node '
+              'results into partial look-ups, provenance of raise operands',
+    floors={'ER-1': 1, 'ER-2': 3, 'ER-3': 1, 'ER-4': 6, 'ER-5': 1, 'ER-6': 4},
+))
+
+_p(PropertySpec(
+    'C06',
+    [('CC-1', None), ('CC-3', None), ('CC-4', None), ('CC-5', None), ('CC-6', None)],
+    decides='the launch loop starts every ready node without waiting for a sibling: coroutines are only spawned, nothing but the '
+            'readiness wait is awaited in the loop, readiness reads only the node\'s own inputs, the launch order is generation '
+            'ordered, synchronous bodies leave the loop thread unless tagged non_async, no mutual exclusion surrounds bodies',
+    not_decided='actual overlap in time (executor capacity, scheduling latency), user bodies that block the loop',
+    technique='region analysis of the role-discovered launch loop in the event CFG, read-set analysis of the readiness predicate, '
+              'order-source classification',
+    floors={'CC-1': 1, 'CC-3': 1, 'CC-4': 1, 'CC-5': 2, 'CC-6': 2},
+))
+
+_p(PropertySpec(
+    'C07',
+    [('SH-1', None), ('SH-2', None), ('SH-3', None), ('SH-5', None)],
+    decides='a run writes only to objects it created: no store, delete or mutating call reachable from PipelineChart.run has a '
+            'root in the DAG, the chart, the caller\'s dictionaries, a module global or a class attribute; the chart is frozen, '
+            'the manager and its stores are created per run, memoisation is per run',
+    not_decided='interference through user node code (class attributes of node classes written by bodies), through the '
+                'filesystem, or through the capacity of the shared executors',
+    technique='interprocedural write-effect and ownership-root analysis with flow-sensitive reaching definitions',
+    floors={'SH-1': 15, 'SH-2': 10, 'SH-5': 1},
+))
+
+_p(PropertySpec(
+    'C08',
+    [('SH-1', None), ('SH-2', None), ('SH-3', None), ('SH-5', None)],
+    decides='overlapping runs share no mutable engine state: the same ownership statement as C07, restricted to roots shared '
+            'between concurrent runs (dag, chart, globals, class attributes, registries)',
+    not_decided='interference through user node code or through the capacity of the shared executors; cancellation of one run '
+                'affecting another through shared pools',
+    technique='interprocedural write-effect and ownership-root analysis with flow-sensitive reaching definitions',
+    floors={'SH-1': 15, 'SH-2': 10, 'SH-5': 1},
+))
+
+_p(PropertySpec(
+    'C13',
+    [('LK-1', None), ('LK-2', None), ('LK-3', None), ('LK-4', None), ('LK-5', None), ('LK-6', None), ('ER-1', None)],
+    decides='every task is created through the registry, every exit of run() (return, exception, cancellation) cancels every '
+            'task that is not done, cleanup code starts no work, no handler swallows cancellation, nothing is shielded or '
+            'detached, the engine\'s own cancellations are never read as an outcome',
+    not_decided='the bound on the number of loop steps until cancelled tasks finish (a count); thread-pool bodies that cannot be '
+                'interrupted; cancellation swallowed by the return-in-finally of the Recurrent branch (examined, task still ends)',
+    technique='who-may-spawn check over all functions, post-dominance of the cancel-all loop over all exits (normal, exception, '
+              'cancellation edges), effect scan of cleanup regions',
+    floors={'LK-1': 1, 'LK-2': 1, 'LK-3': 1, 'LK-4': 1, 'LK-5': 4, 'LK-6': 1, 'ER-1': 1},
 ))
